@@ -42,6 +42,7 @@ def runs(ctx):
     # pre-existing bimodal distribution in a supersaturated matrix: a minor population of small fast-growing particles while
     # the coarse ones set the time step -> the face-wise limiter of the step correction is active on the growth side
     go('AlZr/euler/loaded-bimodal/vratio', kwnruns.build_loaded_binary(ctx.rng, vratio=ctx.rng.choice([0.9, 0.9688, 1.2])), [600.0, 600.0], 'euler')
+    go('NiCrAl/euler/small-grid', kwnruns.build_ternary(bins=20, minBins=10, maxBins=30), [4.0, 6.0], 'euler', 250)
     if ctx.thorough:
         go('AlZr/euler/default-grid', kwnruns.build_binary(x0=x0, T=T), [3600 * 50.0], 'euler')
         go('AlZr/euler/fixed-grid', kwnruns.build_binary(x0=x0, T=T, adaptive=False), [3600 * 20.0], 'euler')
